@@ -10,6 +10,7 @@ import (
 	"github.com/dpb587/rdfkit-go/encoding/turtle/internal"
 	"github.com/dpb587/rdfkit-go/encoding/turtle/internal/grammar"
 	"github.com/dpb587/rdfkit-go/iri"
+	"github.com/dpb587/rdfkit-go/ontology/rdf/rdfiri"
 )
 
 func reader_scanStatement_Subject_AnonOrBlankNode(r *Decoder, ectx evaluationContext, r0 cursorio.DecodedRune, err error) (readerStack, error) {
@@ -447,16 +448,46 @@ func reader_scanStatement(r *Decoder, ectx evaluationContext, r0 cursorio.Decode
 
 		return readerStack{ectx, reader_scanStatement_Subject_AnonOrBlankNode}, nil
 	case '(':
-		r.pushState(ectx, reader_scan_Triples_End)
-
-		nectx := ectx
-		nectx.CurSubject = ectx.Global.BlankNodeStringFactory.NewBlankNode()
-		nectx.CurSubjectLocation = r.commitForTextOffsetRange(r0.AsDecodedRunes())
-
-		r.pushState(nectx, reader_scan_PredicateObjectList)
+		blankNode := ectx.Global.BlankNodeStringFactory.NewBlankNode()
+		blankNodeRange := r.commitForTextOffsetRange(r0.AsDecodedRunes())
 
 		fn := scanFunc(func(r *Decoder, ectx evaluationContext, r0 cursorio.DecodedRune, err error) (readerStack, error) {
-			return reader_scan_collection(r, ectx, r0, nectx.CurSubject, nectx.CurSubjectLocation)
+			nectx := ectx
+
+			if r0.Rune == ')' {
+				nectx.CurSubject = rdfiri.Nil_List
+
+				closeOffsets := r.commitForTextOffsetRange(r0.AsDecodedRunes())
+
+				if closeOffsets != nil {
+					nectx.CurSubjectLocation = &cursorio.TextOffsetRange{
+						From:  blankNodeRange.From,
+						Until: closeOffsets.Until,
+					}
+				} else {
+					nectx.CurSubjectLocation = nil
+				}
+
+				r.pushState(ectx, reader_scan_Triples_End)
+				r.pushState(nectx, reader_scan_PredicateObjectList_Continue)
+
+				return readerStack{nectx, reader_scan_PredicateObjectList_Required}, nil
+			}
+
+			r.buf.BacktrackRunes(r0)
+
+			nectx.CurSubject = blankNode
+			nectx.CurSubjectLocation = blankNodeRange
+
+			r.pushState(ectx, reader_scan_Triples_End)
+			r.pushState(nectx, reader_scan_PredicateObjectList_Continue)
+			r.pushState(nectx, reader_scan_PredicateObjectList_Required)
+
+			fn := scanFunc(func(r *Decoder, ectx evaluationContext, r0 cursorio.DecodedRune, err error) (readerStack, error) {
+				return reader_scan_collection(r, ectx, r0, nectx.CurSubject, nectx.CurSubjectLocation)
+			})
+
+			return readerStack{ectx, fn}, nil
 		})
 
 		return readerStack{ectx, fn}, nil
